@@ -1413,10 +1413,15 @@ func (rc *RegClient) imageImportDockerAddLayerHandlers(ctx context.Context, r re
 		}
 		return nil
 	}
-	// add handlers for each layer
+	// add handlers for each layer, a layer file listed more than once is read once for all of its positions
+	layerIndexes := map[string][]int{}
 	for i, layerFile := range trd.dockerManifestList[index].Layers {
-		func(i int) {
-			trd.handlers[filepath.ToSlash(filepath.Clean(layerFile))] = func(header *tar.Header, trd *tarReadData) error {
+		layerName := filepath.ToSlash(filepath.Clean(layerFile))
+		layerIndexes[layerName] = append(layerIndexes[layerName], i)
+	}
+	for layerName, indexes := range layerIndexes {
+		func(indexes []int) {
+			trd.handlers[layerName] = func(header *tar.Header, trd *tarReadData) error {
 				// ensure blob is compressed
 				rdrUC, err := archive.Decompress(trd.tr)
 				if err != nil {
@@ -1432,16 +1437,18 @@ func (rc *RegClient) imageImportDockerAddLayerHandlers(ctx context.Context, r re
 				if err != nil {
 					return err
 				}
-				// save the resulting descriptor in the appropriate layer
+				// save the resulting descriptor in the appropriate layers
 				if od, ok := trd.dockerManifestList[index].LayerSources[d.Digest]; ok {
-					trd.dockerManifest.Layers[i] = od
+					d = od
 				} else {
 					d.MediaType = mediatype.Docker2LayerGzip
+				}
+				for _, i := range indexes {
 					trd.dockerManifest.Layers[i] = d
 				}
 				return nil
 			}
-		}(i)
+		}(indexes)
 	}
 	trd.handleAdded = true
 }
